@@ -129,6 +129,22 @@ func (a *Activation) callContract(ins *ssa.Call, g *ssa.Function, spec *FuncSpec
 			x.oblige(a.oname("pre@call:"+site), l, *rc, cj.Term, ins.Pos(), nil, "precondition of "+fullKey(g)+": "+cj.Text).setAlts(cj.Alts)
 		}
 	}
+	// termination of recursion (C17): a call of the function under verification must decrease its variant, which is bounded below
+	if a.depth == 0 && fullKey(g) == fullKey(x.root) {
+		if len(spec.Decreases) == 0 || len(x.entryVariant) != len(spec.Decreases) {
+			x.oblige(a.oname("variant@call:"+site), "", *rc, "false", ins.Pos(), nil, "recursive call: the contract has no `decreases` clause")
+		} else {
+			// lexicographic order over the listed expressions
+			var less []string
+			eqSoFar := "true"
+			for i, d := range spec.Decreases {
+				cv := env.evalInt(d)
+				less = append(less, and(eqSoFar, app("<", cv, x.entryVariant[i]), app("<=", "0", x.entryVariant[i])))
+				eqSoFar = and(eqSoFar, eq(cv, x.entryVariant[i]))
+			}
+			x.oblige(a.oname("variant@call:"+site), "", *rc, or(less...), ins.Pos(), nil, "recursive call decreases the variant, which is bounded below (termination)")
+		}
+	}
 	if spec.PanicsIff != nil {
 		x.oblige(a.oname("pre@call:"+site), "no-panic", *rc, not(env.evalBool(spec.PanicsIff)), ins.Pos(), nil, "callee "+fullKey(g)+" does not panic")
 	}
@@ -146,6 +162,11 @@ func (a *Activation) callContract(ins *ssa.Call, g *ssa.Function, spec *FuncSpec
 					r := c.boundVar("r")
 					goal := fmt.Sprintf("(forall ((%s Int)) %s)", r, implies(and(app("<", "0", r), app("<=", r, pre.alloc), f(r)), x.frame.allowsField(key, r, x.alloc0)))
 					x.oblige(a.oname("frame:call:"+site), sanitize(key), *rc, goal, ins.Pos(), nil, "callee may modify "+key+" only inside the caller's modifies clause")
+				}
+			}
+			for cell := range fr.cells {
+				if nm, isCell := x.cellParams[cell]; isCell && !x.frame.cells[cell] {
+					x.oblige(a.oname("frame:call:"+site), "cell", *rc, "false", ins.Pos(), nil, "callee may write through "+nm+"; the caller's modifies clause does not name deref("+nm+")")
 				}
 			}
 			if fr.allElems && !x.frame.allElems {
@@ -167,6 +188,14 @@ func (a *Activation) callContract(ins *ssa.Call, g *ssa.Function, spec *FuncSpec
 		}
 	}
 	x.havocT(st, pre, ws, fr, allocT)
+	// caller-owned cells the callee may write through a pointer parameter
+	if fr != nil {
+		for cell := range fr.cells {
+			if old, ok := st.locals[cell]; ok {
+				st.locals[cell] = c.freshVal("cell_"+ins.Name(), old.T)
+			}
+		}
+	}
 	// results
 	sig := g.Signature
 	var rs []Val
